@@ -286,6 +286,11 @@ def w_tyrving(mon, ctx, rnd, i, n):
                     if m % 10 == 0:
                         mon.submit('tyrvingScore', [g, age, ev, '%d.%02d.%02d.%d' % (hh, mm2, r // 100, (r % 100) // 10)])
         mon.submit('tyrvingScore', [g.lower(), str(age), ev, b / 100])
+        if kind == 'race':
+            hb = b - b % 10
+            hand = '%d.%d' % (hb // 100, (hb % 100) // 10)
+            for sp in (' ' + ev, ev + ' ', ev.lower(), '\t' + ev, ev + '\n'):
+                mon.submit('tyrvingScore', [g, age, sp, hand], tag='decorated-key-hand-timed')
         mon.submit('tyrvingScore', [g, age + 40, ev, b / 100])          # age not tabulated: both refuse
 
 
